@@ -380,6 +380,7 @@ func run(cx *lib.Ctx) {
 			res.Sample(c.in)
 		}
 	}
+	corrDec(cx)
 }
 
 func bucket(n int) string {
